@@ -9,8 +9,67 @@ from .common import *
 INIT, UTILS = "__init__.py", "utils.py"
 TRUSTED = ["the history quantifier is discharged by induction over operations (each operation preserves the cache invariant): the ADT meta-argument is not machine-checked",
            "fcntl.ioctl / query_terminal / regex matching return values as described by their assumed contracts"]
-ASSUMPTIONS = ["locks are transparent (sequential histories only)"]
-NOT_DECIDED = ["'even under concurrent first calls' (thread schedules; not expressible as a sequential contract)"]
+ASSUMPTIONS = ["concurrency enters only through the monitor (lock-invariant) rule: state owned by a lock is stable while the lock is held and "
+               "arbitrary at the next acquisition; RLock gives mutual exclusion and release-acquire ordering; the rule's soundness is a "
+               "meta-theorem, not machine-checked; no schedule is explored by the prover (one deterministic schedule per failed "
+               "obligation is replayed with real threads)"]
+NOT_DECIDED = ["races between a call and a concurrent invalidation or resize (the property quantifies over concurrent first calls and, "
+               "for the toggles, over what a later call sees)"]
+CONC = "C15.concurrent_first_calls"
+
+
+class Monitor:
+    """Monitor (lock-invariant) rule for one lock and the state it owns.
+
+    * the owned state is stable only while the lock is held: at the second and every later outermost acquisition on a path it is
+      replaced by an arbitrary state (`havoc`) - what other threads did in between;
+    * the wrapped body may run only (a) while the lock is held and (b) in a critical section that has itself seen the entry missing;
+    * a result computed in a critical section is stored before that section ends.
+    (a)-(c) give 'the body runs at most once per key until invalidated' for every schedule of concurrent callers.  They are sufficient,
+    not necessary: a failure that the threaded replay cannot reproduce is reported as undecided, never as a violation."""
+    WHY = "monitor-rule(sufficient-not-necessary)"
+
+    def __init__(self, eng, st, havoc, absent, stored, cls="monlock"):
+        self.eng, self.havoc, self.absent, self.stored = eng, havoc, absent, stored
+        self.lock = st.new(cls, {})
+        st.ghost.update(mon_depth=0, mon_sections=0, mon_ran=None)
+        eng.methods[(cls, "__enter__")] = self.enter
+        eng.methods[(cls, "__exit__")] = self.exit
+        eng.closed_classes.add(cls)
+
+    def enter(self, e, s, recv, a, k):
+        s = e.fork(s)
+        outs = [s]
+        if s.ghost["mon_depth"] == 0:
+            s.ghost["mon_sections"] += 1
+            if s.ghost["mon_sections"] > 1 or s.ghost.get("mon_touched"):
+                s.ghost["@over_approx"] = ["state owned by the lock re-read after other threads may have run"]
+                outs = self.havoc(e, s)
+        for s2 in outs:
+            s2.ghost["mon_depth"] = s2.ghost["mon_depth"] + 1
+        return [(recv, s2) for s2 in outs]
+
+    def exit(self, e, s, recv, a, k):
+        s = e.fork(s)
+        s.ghost["mon_depth"] -= 1
+        if s.ghost["mon_depth"] == 0 and s.ghost["mon_ran"] == s.ghost["mon_sections"]:
+            e.oblige("result-stored-before-the-lock-is-released", s, self.stored(s), kind="post", replay=CONC, over_approx=self.WHY)
+        return [(None, s)]
+
+    def body_call(self, e, s):
+        """obligations at a call of the wrapped function"""
+        e.oblige("body-runs-only-while-the-lock-is-held", s, s.ghost["mon_depth"] > 0, kind="post", replay=CONC, over_approx=self.WHY)
+        e.oblige("body-runs-only-after-a-miss-seen-in-the-same-critical-section", s, self.absent(s), kind="post", replay=CONC, over_approx=self.WHY)
+
+    def access(self, e, s, write):
+        """an access to the owned state"""
+        if s.ghost["mon_depth"] == 0:
+            s.ghost["mon_touched"] = True
+            if write:
+                e.oblige("owned-state-written-only-while-the-lock-is-held", s, False, kind="post", replay=CONC, over_approx=self.WHY)
+
+    def body_done(self, s):
+        s.ghost["mon_ran"] = s.ghost["mon_sections"] if s.ghost["mon_depth"] > 0 else -1
 
 
 # ------------------------------------------------------------------------------------------------
@@ -61,7 +120,59 @@ def toggle_world(ctx, eng, st):
         return [(Fn(call), s)]
     eng.attrs[("cachedfn", "_invalidate_cache")] = inval_attr
     eng.genv["utils"] = u
+    # publication order (monitor rule): what the settings and the cache are each time the cell-size lock is released / a memoized
+    # answer is dropped - a caller that runs right after that point computes under exactly those settings and caches the result
+    lock = st.new("monlock", {})
+    st.H(u)["_cell_size_lock"] = lock
+    st.ghost.update(lock_depth=0, releases=[], invalidations=[])
+
+    def enter(e, s, recv, a, k):
+        s = e.fork(s)
+        s.ghost["lock_depth"] += 1
+        return [(recv, s)]
+
+    def exit_(e, s, recv, a, k):
+        s = e.fork(s)
+        s.ghost["lock_depth"] -= 1
+        if s.ghost["lock_depth"] == 0:
+            h = s.H(u)
+            s.ghost["releases"] = s.ghost["releases"] + [(h["_swap_win_size"], h["_queries_enabled"], cache_zeroed(s, u))]
+        return [(None, s)]
+    eng.methods[("monlock", "__enter__")], eng.methods[("monlock", "__exit__")] = enter, exit_
+
+    def inval_attr2(e, s, v):
+        def call(e2, s2, a, k):
+            s2 = e2.fork(s2)
+            s2.H(v)["invalidated"] = True
+            s2.ghost["invalidations"] = s2.ghost["invalidations"] + [s2.H(u)["_queries_enabled"]]
+            return [(None, s2)]
+        return [(Fn(call), s)]
+    eng.attrs[("cachedfn", "_invalidate_cache")] = inval_attr2
     return u, cache, fg, nv
+
+
+def published(eng, outs, u, must_discard, name):
+    """the toggle has to publish the new setting BEFORE it discards what was computed under the old one: a caller in another thread
+    that gets the lock right after the discarding critical section must already see the final setting (otherwise it caches a value
+    computed under the old setting, which nothing discards afterwards).  Sufficient, not necessary (see Monitor)."""
+    for kind, val, s in outs:
+        if kind not in ("return", "normal"):
+            continue
+        h = s.H(u)
+        fin_swap, fin_q = to_z3(h["_swap_win_size"]), to_z3(h["_queries_enabled"])
+        rel = s.ghost["releases"]
+        if rel:
+            sw, q, zeroed = rel[-1]
+            ok = And(to_z3(sw) == fin_swap, to_z3(q) == fin_q, zeroed)
+        else:
+            ok = False
+        eng.oblige("setting-published-before-the-cell-size-cache-is-discarded(under-the-lock)", s, Implies(must_discard(s), ok), kind="post",
+                   replay="C15.toggle_publication", over_approx=Monitor.WHY)
+        if name == "enable_queries":
+            inv = s.ghost["invalidations"]
+            ok2 = And(len(inv) >= 2, *[to_z3(q) == fin_q for q in inv])
+            eng.oblige("setting-published-before-the-memoized-answers-are-dropped", s, Implies(must_discard(s), ok2), kind="post",
+                       replay="C15.toggle_publication", over_approx=Monitor.WHY)
 
 
 @unit("C15", "__init__:toggles")
@@ -93,7 +204,13 @@ def u_toggles(ctx):
                 g = And(g, to_z3(h["_queries_enabled"]), to_z3(h["_swap_win_size"]) == swap0,
                         If(q0, And(same_cache, Not(Or(s.H(fg)["invalidated"], s.H(nv)["invalidated"]))), And(cache_zeroed(s, u), inval)))
             return g
-        obs += exits(eng, outs, ensure=ensure, replay="C15.toggles")
+        exits(eng, outs, ensure=ensure, replay="C15.toggles")
+        swap0, q0 = old["_swap_win_size"], old["_queries_enabled"]
+        if name.endswith("win_size_swap"):
+            published(eng, outs, u, lambda s, t=name.startswith("enable"): to_z3(swap0) != t, name)
+        elif name == "enable_queries":
+            published(eng, outs, u, lambda s: Not(to_z3(q0)), name)
+        obs += eng.obligations
     return obs
 
 
@@ -120,7 +237,7 @@ def u_cached(ctx):
     wrapper, invalidate = nested(outer, "cached_wrapper"), nested(outer, "invalidate")
     key = z3.Int("key")                      # code of the argument tuple (args, tuple(kwargs.items())): injective by construction
     F = z3.Function("func_result", z3.IntSort(), z3.IntSort())
-    m0 = MapModel("cache0")
+    m0 = m00 = MapModel("cache0")
 
     def dict_world(st):
         d = st.new("mapdict", {"has": m0.has, "val": m0.val})
@@ -136,6 +253,7 @@ def u_cached(ctx):
 
     def getitem(e, s, recv, a, k):
         kk = code(a[0])
+        mon.access(e, s, False)
         out = []
         for present, s2 in e.split(s, s.H(recv)["has"][kk]):
             if present:
@@ -147,6 +265,7 @@ def u_cached(ctx):
     def setdefault(e, s, recv, a, k):
         kk = code(a[0])
         s = e.fork(s)
+        mon.access(e, s, True)
         h = s.H(recv)
         old_has = h["has"][kk]
         newval = If(old_has, h["val"][kk], a[1])
@@ -156,11 +275,13 @@ def u_cached(ctx):
 
     def clear(e, s, recv, a, k):
         s = e.fork(s)
+        mon.access(e, s, True)
         s.H(recv)["has"] = z3.K(z3.IntSort(), z3.BoolVal(False))
         return [(None, s)]
 
     def setitem(e, s, recv, a, k):
         kk = code(a[0])
+        mon.access(e, s, True)
         h = s.H(recv)
         h["val"] = z3.Store(h["val"], kk, to_z3(a[1]))
         h["has"] = z3.Store(h["has"], kk, True)
@@ -173,13 +294,24 @@ def u_cached(ctx):
         if a != ("ARGS",) or list(k) != ["KW"]:
             raise Unsupported("wrapped function called with different arguments")
         s = e.fork(s)
+        mon.body_call(e, s)
         s.ghost["calls"] = s.ghost["calls"] + 1
         e.raise_(ExcVal("Boom"), e.fork(s))          # the wrapped function may fail
+        mon.body_done(s)
         return [(F(key), s)]
     # ---- wrapper
     st = State()
     d = dict_world(st)
-    st.env.update(cache=d, lock=Opaque("lock"), func=Fn(func), args=("ARGS",), kwargs=st.new("kwdict", {"@items": {"KW": "KWVAL"}}))
+
+    def havoc(e, s):
+        n = e.sym_int("epoch").decl().name()
+        m = MapModel(f"cache@{n}")
+        s.H(d)["has"], s.H(d)["val"] = m.has, m.val
+        s.ghost["base"] = m                # the post-conditions speak about the cache as of the last acquisition
+        return [s]
+    mon = Monitor(eng, st, havoc, absent=lambda s: Not(s.H(d)["has"][key]),
+                  stored=lambda s: And(s.H(d)["has"][key], s.H(d)["val"][key] == F(key)))
+    st.env.update(cache=d, lock=mon.lock, func=Fn(func), args=("ARGS",), kwargs=st.new("kwdict", {"@items": {"KW": "KWVAL"}}))
 
     eng.methods[("kwdict", "items")] = lambda e, s, recv, a, k: [(("KWITEMS",), s)]
     eng.methods[("kwdict", "keys")] = lambda e, s, recv, a, k: [(("KWNAMES",), s)]
@@ -196,6 +328,7 @@ def u_cached(ctx):
     for kind, val, s in outs:
         h = s.H(d)
         calls = s.ghost["calls"]
+        m0 = s.ghost.get("base", m00)
         k2 = z3.Int("other_key")
         others = z3.ForAll([k2], z3.Implies(k2 != key, z3.And(h["has"][k2] == m0.has[k2], h["val"][k2] == m0.val[k2])))
         if kind == "return":
@@ -210,7 +343,8 @@ def u_cached(ctx):
     # ---- invalidate
     st = State()
     d = dict_world(st)
-    st.env.update(cache=d, lock=Opaque("lock"))
+    mon = Monitor(eng, st, havoc, absent=None, stored=None)
+    st.env.update(cache=d, lock=mon.lock)
     eng.label = "C15/cached.invalidate"
     outs = run_function(eng, invalidate, st)
     k2 = z3.Int("any_key")
@@ -239,11 +373,37 @@ def u_ts_cached(ctx):
 
         def func(e, s, a, k):
             s = e.fork(s)
+            mon.body_call(e, s)
             s.ghost["calls"] = s.ghost["calls"] + 1
             e.raise_(ExcVal("Boom"), e.fork(s))
+            mon.body_done(s)
             return [(F(tw, th), s)]
         entry = (cval, Rec("terminal_size", {"columns": cw_, "lines": chh})) if has_entry else None
-        st.env.update(cache=entry, lock=Opaque("lock"), func=Fn(func), get_terminal_size=eng.genv["get_terminal_size"])
+
+        def entry_size(c):
+            if not (isinstance(c, tuple) and len(c) == 2):
+                raise Unsupported("shape of the terminal-size cache entry")
+            t = c[1]
+            return t.astuple() if isinstance(t, Rec) else tuple(t)
+
+        def havoc(e, s):
+            # what another thread may have left: nothing, or any entry
+            s2 = e.fork(s)
+            s.frames[0]["cache"] = None
+            v, a_, b_ = e.sym_int("other_val"), e.sym_int("other_tw"), e.sym_int("other_th")
+            s2.pc += [a_ >= 1, b_ >= 1]
+            s2.frames[0]["cache"] = (v, Rec("terminal_size", {"columns": a_, "lines": b_}))
+            return [s, s2]
+
+        def absent(s):
+            c = s.frames[0]["cache"]
+            return True if c is None else Not(And(Eq(entry_size(c)[0], tw), Eq(entry_size(c)[1], th)))
+
+        def stored(s):
+            c = s.frames[0]["cache"]
+            return False if c is None else And(Eq(c[0], F(tw, th)), Eq(entry_size(c)[0], tw), Eq(entry_size(c)[1], th))
+        mon = Monitor(eng, st, havoc, absent, stored)
+        st.env.update(cache=entry, lock=mon.lock, func=Fn(func), get_terminal_size=eng.genv["get_terminal_size"])
         # the wrapper is a closure over `cache`: run it one frame deeper so that `nonlocal cache` resolves
         st.frames.append({"args": (), "kwargs": st.new("dict", {"@items": {}}), "__nonlocal__": {"cache"}})
         outs = run_function(eng, wrapper, st)
@@ -259,10 +419,19 @@ def u_ts_cached(ctx):
                                                             (c is entry)), kind="raise", replay="C15.ts_cached")
     eng.label = "C15/terminal_size_cached.invalidate"
     st = State()
-    st.env.update(cache=(cval, (cw_, chh)), lock=Opaque("lock"))
+    mon = Monitor(eng, st, None, None, None)
+    st.env.update(cache=(cval, (cw_, chh)), lock=mon.lock)
     st.frames.append({"__nonlocal__": {"cache"}})
+    released = []
+    orig_exit = eng.methods[("monlock", "__exit__")]
+
+    def exit_(e, s, recv, a, k):
+        released.append(s.frames[0]["cache"] is None)
+        return orig_exit(e, s, recv, a, k)
+    eng.methods[("monlock", "__exit__")] = exit_
     outs = run_function(eng, invalidate, st)
     exits(eng, outs, ensure=lambda v, s: s.frames[0]["cache"] is None)
+    eng.oblige("entry-dropped-inside-the-critical-section", st, released == [True], kind="post", replay=CONC, over_approx=Monitor.WHY)
     return eng.obligations
 
 
@@ -371,16 +540,52 @@ def u_get_cell_size(ctx):
         shell = st.new("envstr")
         eng.methods[("envstr", "startswith")] = lambda e, s, recv, a, k: [(termux, s)]
         eng.genv["os"] = Namespace("os", {"environ": Namespace("environ", {"get": Fn(lambda e, s, a, k: [(shell, s)])})})
-        old_cache = list(st.H(cache))
-        old = dict(st.H(u))
+        # monitor rule for _cell_size_lock: the cache it owns, and the settings the toggles publish before they discard the cache,
+        # are what the getter sees from the moment it takes the lock - anything read earlier may be out of date by then.  Every
+        # outermost acquisition therefore starts from an arbitrary cache / settings state satisfying the invariant, and the
+        # post-condition speaks about the state as of the last acquisition.
+        glock = st.new("monlock", {})
+        st.H(u)["_cell_size_lock"] = glock
+        st.ghost.update(lock_depth=0, sections=0, base=(list(st.H(cache)), dict(st.H(u))), at_release=None)
+
+        def enter(e, s, recv, a, k):
+            s = e.fork(s)
+            if s.ghost["lock_depth"] == 0:
+                s.ghost["sections"] += 1
+                n = e.sym_int("acq").decl().name()
+                vals = [z3.Int(f"cache{i}@{n}") for i in range(4)]
+                s.pc += [v >= 0 for v in vals]
+                s.H(s.H(u)["_cell_size_cache"])[:] = vals
+                s.H(u)["_swap_win_size"], s.H(u)["_queries_enabled"] = z3.Bool(f"swap@{n}"), z3.Bool(f"queries@{n}")
+                s.ghost["cs_swap"], s.ghost["cs_q"] = z3.Bool(f"cs_swap@{n}"), z3.Bool(f"cs_q@{n}")
+                s.pc.append(to_z3(I_cs(s, u, cache)))
+                s.ghost["base"] = (vals, dict(s.H(u)))
+                if s.ghost["sections"] > 1:
+                    s.ghost["@over_approx"] = ["cache and settings re-read after other threads may have run"]
+            s.ghost["lock_depth"] += 1
+            return [(recv, s)]
+
+        def exit_(e, s, recv, a, k):
+            s = e.fork(s)
+            s.ghost["lock_depth"] -= 1
+            if s.ghost["lock_depth"] == 0:
+                s.ghost["at_release"] = list(s.H(s.H(u)["_cell_size_cache"]))
+            return [(None, s)]
+        eng.methods[("monlock", "__enter__")], eng.methods[("monlock", "__exit__")] = enter, exit_
         outs = run_function(eng, fn, st)
-        swap, q = old["_swap_win_size"], old["_queries_enabled"]
-        hit = And(Eq(tw, old_cache[0]), Eq(th, old_cache[1]))
         for kind, val, s in outs:
             if kind != "return":
                 eng.oblige(f"no-exception:{getattr(val, 'cls', kind)}", s, False, kind="raise")
                 continue
+            old_cache, old = s.ghost["base"]
+            swap, q = old["_swap_win_size"], old["_queries_enabled"]
+            hit = And(Eq(tw, old_cache[0]), Eq(th, old_cache[1]))
             c = s.H(s.H(u)["_cell_size_cache"])
+            rel = s.ghost["at_release"]
+            eng.oblige("cell-size-cache-written-only-inside-a-critical-section-of-its-lock", s,
+                       (len(rel) == len(c) and And(*[Eq(a_, b_) for a_, b_ in zip(rel, c)])) if rel is not None
+                       else (len(c) == len(old_cache) and And(*[Eq(a_, b_) for a_, b_ in zip(old_cache, c)])),
+                       kind="post", replay="C15.toggle_publication", over_approx=Monitor.WHY)
             io_ok = s.ghost["io_ok"]
             resp_cell = (rw, rh) if resp_kind == "cell" else None
             resp_area = (rw, rh) if resp_kind == "area" else None
@@ -408,7 +613,7 @@ def u_get_cell_size(ctx):
                        to_z3(s.H(u)["_swap_win_size"]) == swap, to_z3(s.H(u)["_queries_enabled"]) == q,
                        # a cache hit neither touches the tty nor queries
                        Implies(hit, Not(s.ghost["queried"])))
-            eng.oblige("value=cached-if-terminal-size-unchanged-else-fresh", s, goal, kind="post", replay="C15.get_cell_size")
+            eng.oblige("value=cached-if-terminal-size-unchanged-else-fresh", s, goal, kind="post", replay="C15.get_cell_size_any")
             eng.oblige("C12:cell-size-derived-as-documented(ioctl,else-XTWINOPS-cell,else-text-area/terminal;swap)", s, And(r, Implies(Not(hit), valid)), prop="C12", kind="post", replay="C15.get_cell_size")
         obs += eng.obligations
     return obs
